@@ -4,7 +4,7 @@
    meaning of a comparison expression.                                     *)
 From Coq Require Import NArith ZArith List Bool Permutation Lia String.
 From V Require Import Base.UString Model.PatternEq Spec.PatternSemantics Proofs.PatternEqCmp Proofs.PatternEqLists
-     Proofs.PatternEqC Proofs.PatternEqDnf.
+     Proofs.PatternEqC Proofs.PatternEqDnf Proofs.PatternEqIp4.
 Import ListNotations.
 
 (* ------------------------------------------------------------------ *)
@@ -207,13 +207,43 @@ Proof.
   destruct p as [|a [|i [|b [|? ?]]]]; simpl in *; try reflexivity; rewrite ?orb_false_r in Ep; exact Ep.
 Qed.
 
+Lemma special_kind_ip4 : forall t p, special_kind t p = SpIp false -> ip4_path t p = true.
+Proof.
+  intros t p E. unfold special_kind in E. unfold ip4_path.
+  destruct (ustr_eqb t (u "windows-registry-key")); [destruct (path_is1 p "key" || path_is_values_name p); discriminate|].
+  destruct (ustr_eqb t (u "ipv4-addr")) eqn:E4.
+  - simpl. unfold path_is1 in E. destruct p as [|k [|? ?]]; try discriminate E.
+    destruct (step_is_key k "value") eqn:Ek; [exact Ek | discriminate E].
+  - destruct (ustr_eqb t (u "ipv6-addr")); [destruct (path_is1 p "value"); discriminate | discriminate].
+Qed.
+
+Lemma special_kind_not_ip4 : forall t p, special_kind t p <> SpIp false -> regkey_path t p = false -> ip4_path t p = false.
+Proof.
+  intros t p E Hr. unfold special_kind in E. unfold ip4_path.
+  destruct (ustr_eqb t (u "windows-registry-key")) eqn:Ew.
+  - (* the type is windows-registry-key, not ipv4-addr *)
+    apply PatternEqDnf.ustr_eqb_eq in Ew. subst t. reflexivity.
+  - destruct (ustr_eqb t (u "ipv4-addr")) eqn:E4; [|reflexivity]. simpl.
+    unfold path_is1 in E. destruct p as [|k [|? ?]]; try reflexivity.
+    destruct (step_is_key k "value") eqn:Ek; [exfalso; apply E; reflexivity | exact Ek].
+Qed.
+
+(* the canonicalisation that applies to an atom under a variant *)
+Definition eff_kind (v : variant) (a : atom) : sp_kind :=
+  match v_regex v with
+  | KeepRegex => if is_matches (a_op a) then SpNone else special_kind (a_type a) (a_path a)
+  | LowerRegex => special_kind (a_type a) (a_path a)
+  end.
+
 (* atoms on which a defective variant of the special-value pass changes the meaning:
-   LowerRegex lower-cases the regular expression of MATCHES on a registry-key path,
-   Unguarded lower-cases the base64 text of a binary constant there *)
+   LowerRegex rewrites the regular expression of MATCHES (lower-cased on a registry-key path,
+   replaced by a canonical address on an IP path); Unguarded lower-cases the base64 text of a
+   binary constant on a registry-key path.  safe_atom says that nothing of the kind happens. *)
 Definition safe_atom (v : variant) (a : atom) : bool :=
-  match special_kind (a_type a) (a_path a), a_rhs a with
-  | SpReg, KP (PStr s) =>
-    if is_matches (a_op a) then match v_regex v with KeepRegex => true | LowerRegex => ustr_eqb (lower s) s end else true
+  match eff_kind v a, a_rhs a with
+  | SpReg, KP (PStr s) => if is_matches (a_op a) then ustr_eqb (lower s) s else true
+  | SpIp v6, KP (PStr s) =>
+    if is_matches (a_op a) then match ip_canon v6 s with CanonTo s' => ustr_eqb s' s | _ => true end else true
   | SpReg, KP (PBin s) => match v_special v with Guarded => true | Unguarded => ustr_eqb (lower s) s end
   | _, _ => true
   end.
@@ -240,8 +270,9 @@ Definition repaired : variant := mkVariant Guarded KeepRegex.
 
 Lemma safe_atom_repaired : forall a, safe_atom repaired a = true.
 Proof.
-  intro a. unfold safe_atom. destruct (special_kind (a_type a) (a_path a)); try reflexivity.
-  destruct (a_rhs a) as [[]|]; try reflexivity. simpl. destruct (is_matches (a_op a)); reflexivity.
+  intro a. unfold safe_atom, eff_kind, repaired. simpl.
+  destruct (is_matches (a_op a)); [reflexivity|].
+  destruct (special_kind (a_type a) (a_path a)); try reflexivity; destruct (a_rhs a) as [[]|]; reflexivity.
 Qed.
 
 Fixpoint cexpr0_ind' (P : cexpr0 -> Prop)
@@ -299,7 +330,7 @@ Section NormSound.
   Variable otype : obj -> ustring.
   Variable H : ustring -> list step -> cop -> bool -> dconst -> obj -> bool.
   Hypothesis Hden : respects_denotation obj H.
-  Hypothesis Hcidr : respects_cidr obj H.
+  Hypothesis Hcidr : respects_cidr6 obj H.
 
   Notation asem := (asem obj otype H).
   Notation csem := (csem obj otype H).
@@ -317,73 +348,103 @@ Section NormSound.
     - destruct (ustr_eqb s' s); inversion E; reflexivity.
   Qed.
 
+  Definition set_rhs (a : atom) (k : const) : atom := mkAtom (a_type a) (a_path a) (a_op a) (a_neg a) k.
+
+  (* the canonical address text denotes the same value in the context of the atom *)
   Lemma ip_text_sound : forall v6 m a s t x,
       special_kind (a_type a) (a_path a) = SpIp v6 -> a_rhs a = KP (PStr s) ->
+      (is_matches (a_op a) = true -> match ip_canon v6 s with CanonTo s' => s' = s | _ => True end) ->
       special_text m (SpIp v6) false s = Ok t ->
-      asem (match t with Some s' => mkAtom (a_type a) (a_path a) (a_op a) (a_neg a) (KP (PStr s')) | None => a end) x = asem a x.
+      asem (match t with Some s' => set_rhs a (KP (PStr s')) | None => a end) x = asem a x.
   Proof.
-    intros v6 m a s t x Ek Er Et. pose proof (special_kind_ip _ _ _ Ek) as Hnreg.
+    intros v6 m a s t x Ek Er Hm Et. pose proof (special_kind_ip _ _ _ Ek) as Hnreg.
     unfold special_text in Et. destruct (ip_canon v6 s) as [| |s'] eqn:Ec.
     - destruct m; inversion Et. reflexivity.
     - inversion Et. reflexivity.
-    - inversion Et. unfold PatternSemantics.asem. simpl. f_equal.
-      unfold den_atom. simpl. rewrite Er, Hnreg. simpl. apply (Hcidr v6 _ _ _ _ s s' x Ek Ec).
+    - inversion Et. unfold PatternSemantics.asem, set_rhs. simpl. f_equal.
+      unfold den_atom. simpl. rewrite Er, Hnreg.
+      destruct (is_matches (a_op a)) eqn:Em.
+      + rewrite (Hm eq_refl). reflexivity.
+      + destruct v6.
+        * (* IPv6: hypothesis on H *)
+          assert (E4 : ip4_path (a_type a) (a_path a) = false)
+            by (apply special_kind_not_ip4; [rewrite Ek; discriminate | exact Hnreg]).
+          rewrite E4. apply (Hcidr _ _ _ _ s s' x Ek Em Ec).
+        * (* IPv4: the canonical text denotes the same network *)
+          rewrite (special_kind_ip4 _ _ Ek).
+          rewrite (ip4_canon_preserves_net s s' Ec).
+          destruct (ip4_canon_to_has_net s s' Ec) as [[ad n] En]. rewrite En. reflexivity.
+  Qed.
+
+  Lemma special_atom_eff : forall v a,
+      special_atom v a =
+      let kind := eff_kind v a in
+      match kind with
+      | SpNone => Ok a
+      | _ =>
+        match a_rhs a with
+        | KP (PStr s) =>
+          t <- special_text (v_special v) kind false s ;;
+          Ok (match t with Some s' => set_rhs a (KP (PStr s')) | None => a end)
+        | KP (PHex s) =>
+          match v_special v with
+          | Guarded => Ok a
+          | Unguarded => t <- special_text (v_special v) kind true s ;;
+                         Ok (match t with Some s' => set_rhs a (KP (PHex s')) | None => a end)
+          end
+        | KP (PBin s) =>
+          match v_special v with
+          | Guarded => Ok a
+          | Unguarded => t <- special_text (v_special v) kind true s ;;
+                         Ok (match t with Some s' => set_rhs a (KP (PBin s')) | None => a end)
+          end
+        | _ => match v_special v with Unguarded => Err EAttribute | Guarded => Ok a end
+        end
+      end.
+  Proof. intros v a. unfold special_atom, eff_kind, set_rhs. destruct (v_regex v); reflexivity. Qed.
+
+  Lemma eff_kind_some : forall v a k, eff_kind v a = k -> k <> SpNone -> special_kind (a_type a) (a_path a) = k.
+  Proof.
+    intros v a k E Hk. unfold eff_kind in E. destruct (v_regex v); [exact E|].
+    destruct (is_matches (a_op a)); [congruence | exact E].
   Qed.
 
   (* special_sound *)
   Lemma special_atom_sound : forall v a a' x,
       safe_atom v a = true -> special_atom v a = Ok a' -> asem a' x = asem a x.
   Proof.
-    intros v a a' x Hs E. unfold special_atom in E. unfold safe_atom in Hs.
-    destruct (special_kind (a_type a) (a_path a)) as [| |v6] eqn:Ek.
-    - (* no canonicalisation on this path *)
-      simpl in E. destruct (v_regex v); inversion E; reflexivity.
+    intros v a a' x Hs E. rewrite special_atom_eff in E. cbv zeta in E. unfold safe_atom in Hs.
+    destruct (eff_kind v a) as [| |v6] eqn:Ee.
+    - inversion E; reflexivity.
     - (* registry key *)
+      pose proof (eff_kind_some v a SpReg Ee ltac:(discriminate)) as Ek.
       pose proof (special_kind_reg _ _ Ek) as Hreg.
-      destruct (a_rhs a) as [[z|m e|s|b|t|s|s]|l] eqn:Er.
-      + destruct (v_regex v); [|destruct (is_matches (a_op a))]; destruct (v_special v); inversion E; reflexivity.
-      + destruct (v_regex v); [|destruct (is_matches (a_op a))]; destruct (v_special v); inversion E; reflexivity.
+      destruct (a_rhs a) as [[z|m e|s|b|t|s|s]|l] eqn:Er;
+        try (destruct (v_special v); inversion E; reflexivity).
       + (* string: lower-cased *)
-        assert (Hlow : forall a2, a2 = mkAtom (a_type a) (a_path a) (a_op a) (a_neg a) (KP (PStr (lower s))) ->
-                                  (is_matches (a_op a) = true -> lower s = s) -> asem a2 x = asem a x).
-        { intros a2 -> Hm. apply asem_same_den; try reflexivity. unfold den_atom. simpl. rewrite Er, Hreg. simpl.
-          destruct (is_matches (a_op a)) eqn:Em; simpl.
-          - rewrite (Hm eq_refl). reflexivity.
-          - exact (f_equal (fun z => DP (DStr z)) (casefold_idem s)). }
-        destruct (v_regex v) eqn:Ev.
-        * simpl in E. inversion E. apply Hlow; [reflexivity|].
-          intro Em. rewrite Em in Hs. apply ustr_eqb_eq in Hs. exact Hs.
-        * destruct (is_matches (a_op a)) eqn:Em; simpl in E; inversion E; [reflexivity|].
-          apply Hlow; [reflexivity | discriminate].
-      + destruct (v_regex v); [|destruct (is_matches (a_op a))]; destruct (v_special v); inversion E; reflexivity.
-      + destruct (v_regex v); [|destruct (is_matches (a_op a))]; destruct (v_special v); inversion E; reflexivity.
+        simpl in E. inversion E. apply asem_same_den; try reflexivity. unfold den_atom, set_rhs. simpl. rewrite Er, Hreg.
+        destruct (is_matches (a_op a)) eqn:Em.
+        * apply PatternEqDnf.ustr_eqb_eq in Hs. rewrite Hs. reflexivity.
+        * exact (f_equal (fun z => DP (DStr z)) (casefold_idem s)).
       + (* hex: the lower-cased text denotes the same bytes *)
-        assert (Hhex : asem (mkAtom (a_type a) (a_path a) (a_op a) (a_neg a) (KP (PHex (lower s)))) x = asem a x).
-        { apply asem_same_den; try reflexivity. unfold den_atom. simpl. rewrite Er. simpl.
-          exact (f_equal (fun z => DP (DHex z)) (hex_decode_fold s)). }
-        destruct (v_regex v); [|destruct (is_matches (a_op a))]; destruct (v_special v); simpl in E; inversion E;
-          try reflexivity; exact Hhex.
+        destruct (v_special v); simpl in E; inversion E; [|reflexivity].
+        apply asem_same_den; try reflexivity. unfold den_atom, set_rhs. simpl. rewrite Er. simpl.
+        exact (f_equal (fun z => DP (DHex z)) (hex_decode_fold s)).
       + (* binary: only when lower-casing leaves the text alone *)
-        destruct (v_special v) eqn:Es.
-        * apply ustr_eqb_eq in Hs.
-          assert (Hbin : asem (mkAtom (a_type a) (a_path a) (a_op a) (a_neg a) (KP (PBin (lower s)))) x = asem a x).
-          { apply asem_same_den; try reflexivity. unfold den_atom. simpl. rewrite Er. simpl. rewrite Hs. reflexivity. }
-          destruct (v_regex v); [|destruct (is_matches (a_op a))]; simpl in E; inversion E; try reflexivity; exact Hbin.
-        * destruct (v_regex v); [|destruct (is_matches (a_op a))]; simpl in E; inversion E; reflexivity.
-      + destruct (v_regex v); [|destruct (is_matches (a_op a))]; destruct (v_special v); inversion E; reflexivity.
+        destruct (v_special v) eqn:Es; simpl in E; inversion E; [|reflexivity].
+        apply PatternEqDnf.ustr_eqb_eq in Hs.
+        apply asem_same_den; try reflexivity. unfold den_atom, set_rhs. simpl. rewrite Er. simpl. rewrite Hs. reflexivity.
     - (* IP address *)
-      destruct (v_regex v) eqn:Ev; cbv beta zeta iota in E;
-        (destruct (a_rhs a) as [[z|m e|s|b|t|s|s]|l] eqn:Er;
-         [ destruct (v_special v); inversion E; reflexivity
-         | destruct (v_special v); inversion E; reflexivity
-         | apply bind_ok in E; destruct E as [t [Et E]]; inversion E; subst a'; apply (ip_text_sound v6 (v_special v) a s t x Ek Er Et)
-         | destruct (v_special v); inversion E; reflexivity
-         | destruct (v_special v); inversion E; reflexivity
-         | destruct (v_special v); [|inversion E; reflexivity];
-           apply bind_ok in E; destruct E as [t [Et E]]; rewrite (ip_strict_none _ _ _ _ Et) in E; inversion E; reflexivity
-         | destruct (v_special v); [|inversion E; reflexivity];
-           apply bind_ok in E; destruct E as [t [Et E]]; rewrite (ip_strict_none _ _ _ _ Et) in E; inversion E; reflexivity
-         | destruct (v_special v); inversion E; reflexivity ]).
+      pose proof (eff_kind_some v a (SpIp v6) Ee ltac:(discriminate)) as Ek.
+      destruct (a_rhs a) as [[z|m e|s|b|t|s|s]|l] eqn:Er;
+        try (destruct (v_special v); inversion E; reflexivity).
+      + apply bind_ok in E. destruct E as [t [Et E]]. inversion E; subst a'.
+        apply (ip_text_sound v6 (v_special v) a s t x Ek Er); [|exact Et].
+        intro Em. rewrite Em in Hs. destruct (ip_canon v6 s); auto. apply PatternEqDnf.ustr_eqb_eq in Hs. exact Hs.
+      + destruct (v_special v); [|inversion E; reflexivity].
+        apply bind_ok in E. destruct E as [t [Et E]]. rewrite (ip_strict_none _ _ _ _ Et) in E. inversion E; reflexivity.
+      + destruct (v_special v); [|inversion E; reflexivity].
+        apply bind_ok in E. destruct E as [t [Et E]]. rewrite (ip_strict_none _ _ _ _ Et) in E. inversion E; reflexivity.
   Qed.
 
   Lemma cspecial_sound : forall v e0 e,
